@@ -801,7 +801,8 @@ func asiSafeStart(ts []jsTok) bool {
 		return false
 	}
 	switch f {
-	case "in", "instanceof", "of", "async", "let":
+	case "in", "instanceof", "of", "async", "let", "from", "as":
+		// (`export {}` + line break + `from` continues the export statement: no semicolon is inserted there)
 		return false
 	}
 	return true
